@@ -80,9 +80,14 @@ class ComputeTypeVisitor(Visitor.DefaultVisitor):
         ctx.pop()
 
     def v_IfStatement(self, stmt, ctx):
-        ctx.append(types.Scope(ctx[-1]))
-        stmt.AcceptVisitor(self, ctx)
-        ctx.pop()
+        # The condition belongs to the enclosing scope, each branch is a
+        # scope of its own
+        self.v_Visit(stmt.GetCondition(), ctx)
+        for branch in (stmt.GetTruePath(), stmt.GetElsePath()):
+            if branch is not None:
+                ctx.append(types.Scope(ctx[-1]))
+                self.v_Visit(branch, ctx)
+                ctx.pop()
 
     def _GetClassScopeForMemberAccess(self, expr, scope):
         return scope.GetFieldType(expr.GetMemberAccess().GetParent().GetName())
